@@ -11,7 +11,7 @@
      copy_pre  = both buffers are large enough for the addressed ranges, allocations < 2^61 bytes
      buf_pre   = size <= allocation, allocation < 2^61 bytes, offset is a size_t, bytes < 256. *)
 From Verif Require Import Bits CPrims CPrimsThm F16 F16Thm F16ArithThm CppPrims CppPrimsThm CppPrimsMoreThm PyPrims PyPrimsThm PyPrimsMoreThm PyPrimsStdThm PyPrimsBitsThm PyPrimsForkThm PrimsExt PrimsExtThm
-  CPrimsW CPrimsWThm F16FlocqDefs F16Flocq PyComposeThm CppComposeThm.
+  CPrimsW CPrimsWThm F16FlocqDefs F16Flocq PyComposeThm CppComposeThm Gen_Pin_c14py.
 Open Scope N_scope.
 
 (* ---------------------------------------------------------------------------------------------
@@ -94,8 +94,8 @@ Example C14_buf_pre_satisfiable :
   buf_pre [1; 2; 3] 2 100 = true /\ buf_pre [] 0 0 = true.
 Proof. vm_compute. auto. Qed.
 
-(* DOMAIN: off_bits + len_bits < 2^64 (size_t).  Outside it the shipped check is wrong: see C14_set_uxx_offset_wrap_refuted and
-   C14_size_t_widths below (known finding F-SETUXX-OFFSET-WRAP).
+(* (statement kept with the premise off + len < 2^64 of the time when the capacity check could wrap; since /repo ba46e0a the check
+   saturates and C14_set_uxx_every_offset below needs no such premise.)
    nunavutSetUxx (both renderings): error iff the buffer is too small, otherwise exactly
    min(len,64) bits are written and every other bit of the allocation keeps its value *)
 Theorem C14_set_uxx_exact :
@@ -257,7 +257,7 @@ Theorem C14_cpp_pad_and_subspans :
             List.length r = List.length (sp_data s) /\
             forall p, bit r p = if (sp_off s <=? p) && (p <? sp_off s + pad) then false else bit (sp_data s) p) /\
   (* subspan(bits), subspan_bytes(n) [current source: the pointer never passes one past the end, the result is always a well formed
-     span; equal to the unclamped text of CppPrims.v whenever offset_bytes <= size], subspan(bits_at, size_bits): the new pointer/offset address the same bits,
+     span], subspan(bits_at, size_bits): the new pointer/offset address the same bits,
      the new size never reaches past the parent's; subspan(bits_at, size_bits) floors the byte size as the source does *)
   (forall (s : span) (bits size_bytes bits_at size_bits : N),
     span_okb s = true -> (sp_off s + bits <? two64) && (sp_off s + bits_at <? two64) && (size_bits + 8 <? two64) = true ->
@@ -267,7 +267,7 @@ Theorem C14_cpp_pad_and_subspans :
      sp_size s' = sp_size s - k /\ span_ok s' /\
      (forall p, bit (sp_data s') p = bit (sp_data s) (8 * N.min k (sp_size s) + p)) /\
      sp_bits s' = sp_size s * 8 - (sp_off s + bits) /\
-     (k <= sp_size s -> s' = subspan s bits /\ 8 * k + sp_off s' = sp_off s + bits)) /\
+     (k <= sp_size s -> 8 * k + sp_off s' = sp_off s + bits)) /\
     (let s' := subspan_bytes_clamped s size_bytes in
      sp_data s' = skipn (N.to_nat (N.min (sp_off s / 8) (sp_size s))) (sp_data s) /\ sp_off s' = sp_off s mod 8 /\
      sp_size s' = N.min size_bytes (sp_size s - sp_off s / 8) /\ span_ok s') /\
@@ -622,23 +622,23 @@ Print Assumptions C14_py_arrays_of_standard_primitives.
 (* =============================================================================================
    Round 5 (audit follow-up). *)
 
-(* The capacity check `(buf_size_bytes * 8) < (off_bits + len_bits)` of nunavutSetUxx / bitspan::setUxx is NOT wrap-free:
-   for off_bits within len_bits of the maximum of size_t the sum wraps, the check passes and the copy leaves the buffer
-   (None = out-of-range access) although buf_pre holds and the buffer is too small.  Witness, both widths of size_t and C++:
-   2-byte buffer, offset 2^W - 8, 16 bits.  Reproduced on the rendered headers (SIGSEGV); known finding F-SETUXX-OFFSET-WRAP. *)
-Theorem C14_set_uxx_offset_wrap_refuted :
-  ((exists buf size off value len,
-      buf_pre buf size off = true /\ size * 8 < off + len /\ set_uxx false buf size off value len = None /\
-      set_uxx true buf size off value len = None) /\
-   (exists buf size off value len,
-      buf_preM (2 ^ 32) buf size off = true /\ size * 8 < off + len /\ set_uxxM (2 ^ 32) false buf size off value len = None)) /\
-  (exists s value len, span_okb s = true /\ sp_bits s < len /\ cpp_set_uxx s value len = None).
-Proof. split; [exact set_uxx_offset_wrap_refuted|exact cpp_set_uxx_offset_wrap_refuted]. Qed.
-Print Assumptions C14_set_uxx_offset_wrap_refuted.
+(* The capacity check of nunavutSetUxx / bitspan::setUxx (current text: `off > cap || len > cap - off`) is wrap-free: too small is
+   reported iff size*8 < off + len (the true sum), for EVERY offset and length; the C++ member is the C function.
+   (The wrapping check it replaced, its witness and finding F-SETUXX-OFFSET-WRAP [fixed]: History/C14_history.v.) *)
+Theorem C14_set_uxx_every_offset :
+  forall (little : bool) (buf : bytes) (size off value len : N),
+    buf_pre buf size off = true ->
+    if size * 8 <? off + len
+    then set_uxx little buf size off value len = Some (inr TooSmall)
+    else exists r, set_uxx little buf size off value len = Some (inl r) /\ length r = length buf /\
+           forall p, bit r p = if (off <=? p) && (p <? off + N.min len 64)
+                               then N.testbit (value mod 2 ^ 64) (p - off) else bit buf p.
+Proof. exact set_uxx_exact_all_b. Qed.
+Print Assumptions C14_set_uxx_every_offset.
 
 (* size_t as a parameter (Prims/CPrimsW.v: the text of CPrims.v with every size_t operation modulo M).  For BOTH deployment
-   widths, M = 2^32 and M = 2^64: copy exact; SetUxx exact on the domain off + len < M; the saturating check of
-   design_notes/C14_wrap_fix.patch exact for EVERY offset and length; GetU*/GetI* for every offset.  M = 2^64 is, definitionally,
+   widths, M = 2^32 and M = 2^64: copy exact; SetUxx exact (second conjunct: old statement with the premise off + len < M; third:
+   EVERY offset and length); GetU*/GetI* for every offset.  M = 2^64 is, definitionally,
    the model that is extracted and run against the compiled header. *)
 Theorem C14_size_t_widths :
   c_theorems_at_width (2 ^ 32) /\ c_theorems_at_width (2 ^ 64) /\
@@ -731,3 +731,32 @@ Theorem C14_cpp_cursor_sequences :
     forall p, p < sp_off s \/ sp_off s' <= p -> bit (sp_data s') p = bit (sp_data s) p.
 Proof. exact cpp_run_frame. Qed.
 Print Assumptions C14_cpp_cursor_sequences.
+
+(* =============================================================================================
+   Round 6. *)
+
+(* The hand model of the Python support module is valid for ONE shape of each method: tools/translators/gen_c14.py writes
+   Generated/Gen_Pin_c14py.v from /repo on every run; `pin_c14py_ok` is only defined when the normalised AST (comments,
+   annotations, docstrings dropped, locals alpha-renamed) of all 84 modelled methods of Serializer / Deserializer /
+   ZeroExtendingBuffer (incl. _unsigned_to_bytes, _unsigned_from_bytes, the signed wrappers) equals tools/translators/pins/c14py.txt. *)
+Example C14_py_support_shape_pinned : pin_c14py_ok = true.
+Proof. reflexivity. Qed.
+
+(* The truncation contract of the Python unsigned writers: for EVERY natural value (also values wider than the field) and every
+   bit length >= 1, _unsigned_to_bytes gives ceil(bits/8) bytes holding value mod 2^bits with the unused top of the last byte zero;
+   the writers append exactly `bits` bits = those of value mod 2^bits, every bit after the new cursor is zero (`appended`), and
+   writing value is the same as writing value mod 2^bits. *)
+Theorem C14_py_unsigned_truncation :
+  (forall value bits, 1 <= bits ->
+     exists bs, unsigned_to_bytes value bits = Some bs /\ blen bs = (bits + 7) / 8 /\ bytes_ok bs /\
+       of_le_bytes bs = value mod 2 ^ bits /\ forall k, bit bs k = (k <? bits) && N.testbit value k) /\
+  (forall (aligned : bool) s value bits,
+     Inv s -> bytes_ok (s_buf s) -> 1 <= bits ->
+     (if aligned then s_off s mod 8 = 0 /\ s_off s / 8 + (bits + 7) / 8 <= blen (s_buf s)
+      else s_off s / 8 + (bits + 7) / 8 < blen (s_buf s)) ->
+     exists s', (if aligned then add_aligned_unsigned s value bits else add_unaligned_unsigned s value bits) = Some s' /\
+                appended s s' bits (N.testbit (value mod 2 ^ bits)) /\
+                (if aligned then add_aligned_unsigned s (value mod 2 ^ bits) bits
+                 else add_unaligned_unsigned s (value mod 2 ^ bits) bits) = Some s').
+Proof. split; [exact unsigned_to_bytes_spec|exact unsigned_writers_truncate]. Qed.
+Print Assumptions C14_py_unsigned_truncation.
